@@ -198,7 +198,7 @@ func vToyDecode(b []byte) ([]byte, bool) {
 func TestVerifDiskCorrespondence(t *testing.T) {
 	rec := vNewRecorder(t, "disk")
 	defer rec.Close(t)
-	cases := vScale(60, 1200)
+	cases := vScale(100, 1500)
 	vParallel(cases, 12, func(ci int) {
 		cs := rec.NewCase()
 		vDiskCase(t, cs, vNewRand(fmt.Sprintf("disk-%d", ci)), ci)
@@ -266,12 +266,43 @@ func vDiskCase(t *testing.T, rec *vCase, rng *vRand, ci int) {
 	}
 	// the same hash in another key space (C15)
 	keys = append(keys, vKey{kind: cache.AC, hash: keys[0].hash, data: keys[1].data, a: keys[1].a, m: keys[1].m, c: keys[1].c})
+	{
+		seen := map[string]bool{emptySha256[:2]: true}
+		var pres []string
+		for _, k := range keys {
+			seen[k.hash[:2]] = true
+			seen[vHash(append([]byte{9}, k.data...))[:2]] = true // the "badhash" variant (accepted for AC/RAW)
+		}
+		for p := range seen {
+			pres = append(pres, p)
+		}
+		vPrefixes.Store(c.dir, pres)
+	}
+	defer func() {
+		// one full listing at the end of the case: nothing anywhere else in the directory
+		vPrefixes.Delete(c.dir)
+		if _, c04 := vCheckQuiescent(c); c04 != "" {
+			rec.Violation("C04", "disk.directory.final", c04, rec.CaseOps())
+		}
+	}()
 	ctx := context.Background()
 	acked := map[string][]byte{} // lookup key -> content of the last acknowledged put
 	nops := 5 + rng.Intn(vScale(40, 80))
 	var sig []string
 	for oi := 0; oi < nops; oi++ {
 		k := keys[rng.Intn(len(keys))]
+		if rng.Pct(55) {
+			// prefer a key that is currently stored (reads and overwrites of live entries)
+			var live []vKey
+			for _, kk := range keys {
+				if ok, _ := vProbe(c, cache.LookupKey(kk.kind, kk.hash)); ok {
+					live = append(live, kk)
+				}
+			}
+			if len(live) > 0 {
+				k = live[rng.Intn(len(live))]
+			}
+		}
 		lk := cache.LookupKey(k.kind, k.hash)
 		kindS := k.kind.String()
 		opKind := ""
@@ -383,8 +414,11 @@ func vDiskCase(t *testing.T, rec *vCase, rng *vRand, ci int) {
 				size++
 			}
 			off := int64(0)
-			if rng.Pct(50) && size > 0 {
+			if rng.Pct(65) && size > 0 {
 				off = rng.I64n(size + 2)
+				if rng.Pct(30) {
+					off = []int64{1, size - 1, size / 2, 4095, 4096, 4097}[rng.Intn(6)]
+				}
 			}
 			if rng.Pct(3) {
 				off = -1
